@@ -78,5 +78,9 @@ Print Assumptions C03_eq_iff_cmp_Eq_refuted_before_fix.
 Check (C03_before_fix_differs_only_on_two_labels : forall a b,
   length (snd a) <> 2%nat -> key_cmp_before_fix a b = key_cmp a b).
 Print Assumptions C03_before_fix_differs_only_on_two_labels.
+Check (C03_before_fix_differs_only_when_two_labels_share_a_name : forall n1 n2 a0 a1 b0 b1,
+  fst a0 <> fst a1 -> fst b0 <> fst b1 ->
+  key_cmp_before_fix (n1, [a0; a1]) (n2, [b0; b1]) = key_cmp (n1, [a0; a1]) (n2, [b0; b1])).
+Print Assumptions C03_before_fix_differs_only_when_two_labels_share_a_name.
 Check (C03_label_order_matters_with_repeated_names : exists a b, fst a = fst b /\ Permutation (snd a) (snd b) /\ key_eq a b = false /\ key_cmp a b = Lt).
 Print Assumptions C03_label_order_matters_with_repeated_names.
